@@ -95,6 +95,8 @@ def callees(prog: Program, rep) -> None:
     # (projection sign table: rule infeasibility-projection-signs, shared with C13)
     from .c13 import sign_table
     sign_table(prog, rep, li, "self.cons_jac.T.dot(self.cons)", {"at_lower": "minimum", "at_upper": "maximum"}, "infeasibility-projection-signs", init_zero=False)
+    from .c13 import active_set_masks
+    active_set_masks(prog, rep)
     isf = it.methods["is_feasible"]
     tol = [p for p in isf.params if p != "self"][0]
     rs = returns_of(isf)
